@@ -15,7 +15,7 @@ RULE = ('exhaustive enumeration of all 1312 (version, level, mask) triples (44 v
 ASSUMPTIONS = common.ASSUME_QR
 REQUIRED = ['evaluations', 'encode_observed', 'symbols_decoded', 'triples_seen', 'all_1312_triples_observed']
 EXHAUSTIVE = {'quick': '(version, level, mask) triples: 1312 of 1312', 'thorough': '(version, level, mask) triples: 1312 of 1312'}
-TIMEOUT = {'quick': 900, 'thorough': 5400}
+TIMEOUT = {'quick': 3600, 'thorough': 21600}
 
 
 def triples():
